@@ -238,6 +238,25 @@ Proof using HOK HNE HW HRT HAb.
   - exact (R4_qpm dbg hp hpo hd u ops u' (IH (CanonF_not_drive hp hpo hd u (ReachC8_CanonF u Hr))) Hops Hs Hd).
 Qed.
 
+(* ---------- ReachC8 is closed under the whole constructor R4_join ---------- *)
+Lemma nonfile_base_file_abs b input : is_file b = false -> file_input input = true -> file_abs_ref b input = true.
+Proof.
+  unfold is_file, scheme_of, file_input, file_abs_ref, b_scheme. intros Hb Hf.
+  destruct (parse_scheme CUrlParser (input_new_trim_c0 input)) as [[sch rem]|]; [|discriminate Hf].
+  destruct (scheme_type_of sch); try discriminate Hf. rewrite Hb. reflexivity.
+Qed.
+
+Theorem ReachC8_join_closed ovr b input u : ReachC8 b -> usv_list input ->
+  parse_url dbg hp hpo hd ovr (Some b) input = POk u -> Known_file_drive u = false -> ReachC8 u.
+Proof using HOK HNE HW HRT HAb.
+  intros Hr Hu Hp Hk. destruct (is_file b) eqn:Hf.
+  - exact (RC8_join_file ovr b input u Hr Hf Hu Hp Hk).
+  - destruct (ref_trichotomy input) as [Ht | [Ht | Ht]].
+    + exact (RC8_join_rel ovr b input u Hr Hf Hu Ht Hp).
+    + exact (RC8_join_scheme ovr b input u Hr Hf Hu Ht Hp).
+    + exact (RC8_join_file_abs ovr b input u (ReachC8_Reachable4 b Hr) Hu (nonfile_base_file_abs b input Hf Ht) Hp Hk).
+Qed.
+
 (* ---------- ReachC7 is inside ReachC8 ---------- *)
 Theorem ReachC7_C8 u : ReachC7 u -> ReachC8 u.
 Proof using HOK HNE HW HRT HAb.
